@@ -4,6 +4,7 @@ import (
 	"errors"
 	"fmt"
 	"reflect"
+	"slices"
 	"sync"
 	"time"
 
@@ -301,6 +302,9 @@ func (r *FeatureLocal) ApproveOrDenyWrite(msg *api.Message, err model.ErrorType)
 }
 
 func (r *FeatureLocal) SetWriteApprovalTimeout(duration time.Duration) {
+	r.muxResponseCB.Lock()
+	defer r.muxResponseCB.Unlock()
+
 	r.writeTimeout = duration
 }
 
@@ -317,7 +321,10 @@ func (r *FeatureLocal) CleanWriteApprovalCaches(ski string) {
 	}
 
 	delete(r.pendingWriteApprovals, ski)
+
+	r.muxWriteReceived.Lock()
 	delete(r.writeApprovalReceived, ski)
+	r.muxWriteReceived.Unlock()
 }
 
 // Remove subscriptions and bindings from local cache for a remote device
@@ -566,7 +573,11 @@ func (r *FeatureLocal) RemoveRemoteSubscription(remoteAddress *model.FeatureAddr
 
 // Remove all subscriptions to remote features
 func (r *FeatureLocal) RemoveAllRemoteSubscriptions() {
-	for _, item := range r.subscriptions {
+	r.mux.Lock()
+	subscriptions := slices.Clone(r.subscriptions)
+	r.mux.Unlock()
+
+	for _, item := range subscriptions {
 		_, _ = r.RemoveRemoteSubscription(item)
 	}
 }
@@ -646,7 +657,11 @@ func (r *FeatureLocal) RemoveRemoteBinding(remoteAddress *model.FeatureAddressTy
 
 // Remove all subscriptions to remote features
 func (r *FeatureLocal) RemoveAllRemoteBindings() {
-	for _, item := range r.bindings {
+	r.mux.Lock()
+	bindings := slices.Clone(r.bindings)
+	r.mux.Unlock()
+
+	for _, item := range bindings {
 		_, _ = r.RemoveRemoteBinding(item)
 	}
 }
@@ -679,7 +694,11 @@ func (r *FeatureLocal) HandleMessage(message *api.Message) *model.ErrorType {
 		}
 	case model.CmdClassifierTypeWrite:
 		// if there is a write permission check callback set, invoke this instead of directly allowing the write
-		if len(r.writeApprovalCallbacks) > 0 {
+		r.muxResponseCB.Lock()
+		approvalRequired := len(r.writeApprovalCallbacks) > 0
+		r.muxResponseCB.Unlock()
+
+		if approvalRequired {
 			r.addPendingApproval(message)
 			r.processWriteApprovalCallbacks(message)
 		} else {
